@@ -364,6 +364,75 @@ def sampleNames (src : Names) (copy : Bool) (name : Option String)
   let s ← overrideLabels base.states states
   pure ⟨nm, i, o, s⟩
 
+/-! ### how the arguments reach `sample` / `sample_system` / `c2d`: the binding of a call
+
+Strengthening after seeded changes (round 3).  The documented parameter order of the three entry
+points, and Python's binding of a call (positional arguments fill the parameters from the left,
+keyword arguments by name) to that order.  What the model computes with (`method`, `alpha`,
+`prewarp_frequency`, `name`, `copy_names`) is the value each *documented* parameter receives. -/
+
+/-- where a parameter gets its value from: the `i`-th positional argument of the call, the `j`-th
+keyword argument of the call, or its default. -/
+inductive Slot where
+  | pos (i : Nat)
+  | kw (j : Nat)
+  | dflt
+  deriving DecidableEq, Repr
+
+/-- position of the keyword `p` among the keyword arguments of the call. -/
+def kwIndex (p : String) : List String → Option Nat
+  | [] => none
+  | k :: ks => if k = p then some 0 else (kwIndex p ks).map (· + 1)
+
+/-- the slot of the parameter `p` with index `i` of the signature. -/
+def slotOf (npos : Nat) (kws : List String) (i : Nat) (p : String) : Slot :=
+  if i < npos then .pos i
+  else match kwIndex p kws with
+    | some j => .kw j
+    | none => .dflt
+
+def slotsFrom (npos : Nat) (kws : List String) : Nat → List String → List Slot
+  | _, [] => []
+  | i, p :: ps => slotOf npos kws i p :: slotsFrom npos kws (i + 1) ps
+
+/-- Python's binding of a call with `npos` positional arguments and the keyword arguments `kws`
+(their names in call order; a repeated keyword is a syntax error) to
+`def f(params…, **kwargs)` (`varkw`) / `def f(params…)`, whose first `nreq` parameters have no default:
+more positional arguments than parameters, a parameter filled positionally and named again by
+keyword, a parameter without default left unfilled, and (without `**kwargs`) a keyword that names
+no parameter all raise `TypeError`; a keyword that names no parameter otherwise travels on in
+`**kwargs`.  Result: the slot of every parameter. -/
+def bindArgs (params : List String) (nreq : Nat) (varkw : Bool) (npos : Nat) (kws : List String) :
+    Except Err (List Slot) :=
+  if params.length < npos then .error .badArg
+  else if (params.take npos).any (fun p => kws.contains p) then .error .badArg
+  else if ((params.take nreq).drop npos).any (fun p => !kws.contains p) then .error .badArg
+  else if !varkw && kws.any (fun k => !params.contains k) then .error .badArg
+  else .ok (slotsFrom npos kws 0 params)
+
+/-- the value a slot delivers, given the positional and keyword values of the call. -/
+def Slot.value {α : Type} (posv kwv : List α) : Slot → Option α
+  | .pos i => posv[i]?
+  | .kw j => kwv[j]?
+  | .dflt => none
+
+/-- `StateSpace.sample` / `TransferFunction.sample` (after `self`): documented order. -/
+def sampleParams : List String :=
+  ["Ts", "method", "alpha", "prewarp_frequency", "name", "copy_names"]
+
+/-- `sample_system` = `c2d`: the system first, then the same order. -/
+def sampleSystemParams : List String := "sysc" :: sampleParams
+
+def bindSample (npos : Nat) (kws : List String) : Except Err (List Slot) :=
+  bindArgs sampleParams 1 true npos kws
+
+def bindSampleSystem (npos : Nat) (kws : List String) : Except Err (List Slot) :=
+  bindArgs sampleSystemParams 2 true npos kws
+
+/-- `pade(T, n=1, numdeg=None)`: no `**kwargs`. -/
+def bindPade (npos : Nat) (kws : List String) : Except Err (List Slot) :=
+  bindArgs ["T", "n", "numdeg"] 1 false npos kws
+
 /-! ### Padé approximation of a delay -/
 
 section pade
